@@ -181,10 +181,41 @@ def readBodyLoop (out : Bytes) : List Bytes → Option (Bytes × Bytes × List B
       | some pos => some (stripLineBreak (out'.take (pos + 1)), out'.drop (pos + 1), ls)
       | none => readBodyLoop out' ls
 
+/-- the loop as repaired (D19c): `search_from = out.len().saturating_sub(1)` is taken before
+`read_line`, and the pattern is looked for in `out[search_from..]` only — the line break in front
+of the line just read, and that line.  (`RpgpProofs/CleartextIncr.lean`: on the successive results of
+`read_line` this is the same function as `readBodyLoop`, which the rest of the model keeps using.) -/
+def readBodyLoopIncr (out : Bytes) : List Bytes → Option (Bytes × Bytes × List Bytes)
+  | [] => none
+  | l :: ls =>
+    let searchFrom := out.length - 1
+    let out' := out ++ l
+    if fiveDashes.isPrefixOf out' then some ([], out', ls)
+    else
+      match (findLast bodyEndPat (out'.drop searchFrom)).map (· + searchFrom) with
+      | some pos => some (stripLineBreak (out'.take (pos + 1)), out'.drop (pos + 1), ls)
+      | none => readBodyLoopIncr out' ls
+
+/-- octets the `rfind` of one run of the loop looks at, summed over the run: the whole text read so
+far after every line (before the repair) … -/
+def searchWorkFull (out : Bytes) : List Bytes → Nat
+  | [] => 0
+  | l :: ls => (out ++ l).length + searchWorkFull (out ++ l) ls
+
+/-- … or the line just read and the line break in front of it (repaired) -/
+def searchWorkIncr (out : Bytes) : List Bytes → Nat
+  | [] => 0
+  | l :: ls => ((out ++ l).drop (out.length - 1)).length + searchWorkIncr (out ++ l) ls
+
 /-- `read_cleartext_body(b)` followed by `Cursor::new(prefix).chain(b)`:
 `(csf_encoded_text, everything that is left for the signature dearmor)` -/
 def readBodyLines (ls : List Bytes) : Option (Bytes × Bytes) :=
   (readBodyLoop [] ls).map fun r => (r.1, r.2.1 ++ r.2.2.flatten)
+
+/-- the same through the loop the tree has (the translator reports which one that is) -/
+def readBodyLinesCur (ls : List Bytes) : Option (Bytes × Bytes) :=
+  ((if Gen.fixD19cCleartextSearchLastLineOnly = 1 then readBodyLoopIncr [] ls else readBodyLoop [] ls)).map
+    fun r => (r.1, r.2.1 ++ r.2.2.flatten)
 
 def readCleartextBody (inp : Bytes) : Option (Bytes × Bytes) := readBodyLines (splitInclusive inp)
 
